@@ -36,28 +36,30 @@ def KeyType.sig : KeyType → List Nat
   | .vu64 => Gen.sigVu64
 
 /-- `KT::cmp_u8(self, stored) == Equal`; `none` = the call panics (`vu64::decode(..).unwrap()`
-on bytes that are not a vu64). -/
+on bytes that are not a vu64). The five `cmp_u8` bodies are translated from the Rust source on
+every run (`Gen.cmpU8*`); what they compute is stated in `Lemmas/KeyGenL.lean`. -/
 def cmpKey (kt : KeyType) (mine stored : List Nat) : Option Bool :=
-  match kt with
-  | .vu64 =>
-    match Vu64.decode mine, Vu64.decode stored with
-    | some (a, _), some (b, _) => some (decide (a = b))
-    | _, _ => none
-  | _ => some (decide (mine = stored))
+  (match kt with
+   | .string => Gen.cmpU8String mine stored
+   | .bytes => Gen.cmpU8Bytes mine stored
+   | .u64 => Gen.cmpU8U64 mine stored
+   | .i64 => Gen.cmpU8I64 mine stored
+   | .vu64 => Gen.cmpU8Vu64 mine stored).map (fun o : Ordering => decide (o = Ordering.eq))
 
-/-- `From<u64> for DbU64` / `From<i64> for DbI64` (two's complement) : 8 little-endian bytes. -/
-def u64Key (x : Nat) : List Nat := Vu64.leBytes x 8
+/-! The integer ⇄ key conversions are the generated translations of the `From` impls; their
+closed forms (8 little-endian bytes, two's complement, vu64) are lemmas in `Lemmas/KeyGenL.lean`. -/
+
+/-- `From<u64> for DbU64`: 8 little-endian bytes. -/
+def u64Key (x : Nat) : List Nat := Gen.u64ToKey x
 /-- `From<&DbU64> for u64`: first 8 bytes little endian, zero extended. -/
-def u64OfKey (k : List Nat) : Nat := Vu64.ofLeBytes (k.take 8)
-/-- `From<i64> for DbI64`. -/
-def i64Key (x : Int) : List Nat := Vu64.leBytes (x % 2^64).toNat 8
+def u64OfKey (k : List Nat) : Nat := Gen.keyToU64 k
+/-- `From<i64> for DbI64` (two's complement). -/
+def i64Key (x : Int) : List Nat := Gen.i64ToKey x
 /-- `From<&DbI64> for i64`. -/
-def i64OfKey (k : List Nat) : Int :=
-  let u := Vu64.ofLeBytes (k.take 8)
-  if u < 2^63 then (u : Int) else (u : Int) - 2^64
+def i64OfKey (k : List Nat) : Int := Gen.keyToI64 k
 /-- `From<u64> for DbVu64`. -/
-def vu64Key (x : Nat) : List Nat := Vu64.encode x
+def vu64Key (x : Nat) : List Nat := Gen.vu64ToKey x
 /-- `From<&DbVu64> for u64` (`none` = `unwrap` panics). -/
-def vu64OfKey (k : List Nat) : Option Nat := (Vu64.decode k).map (·.1)
+def vu64OfKey (k : List Nat) : Option Nat := Gen.keyToVu64 k
 
 end Abyss
